@@ -61,7 +61,6 @@ Definition delta_is_empty (d : delta) : bool :=
 Definition delimiter_for (d : delta) (n : bytes) : bytes :=
   match bget n (d_delim d) with Some x => x | None => [] end.
 
-Definition is_empty (b : bytes) : bool := match b with [] => true | _ => false end.
 
 (* one entry of LayerEnvDelta::apply's loop body *)
 Definition delta_step (d : delta) (b : beh) (e : env) (kv : bytes * bytes) : env :=
